@@ -307,7 +307,11 @@ impl Loop {
         match self {
             Loop::V4(e) => Snapshot {
                 retrans: if full {
-                    e.state.clone().clean().iter().map(rq4).collect()
+                    // the parked publish is read separately below, whether or
+                    // not `clean()` hands it back too
+                    let mut st = e.state.clone();
+                    st.collision = None;
+                    st.clean().iter().map(rq4).collect()
                 } else {
                     Vec::new()
                 },
@@ -330,7 +334,11 @@ impl Loop {
             },
             Loop::V5(e) => Snapshot {
                 retrans: if full {
-                    e.state.clone().clean().iter().map(rq5).collect()
+                    // the parked publish is read separately below, whether or
+                    // not `clean()` hands it back too
+                    let mut st = e.state.clone();
+                    st.collision = None;
+                    st.clean().iter().map(rq5).collect()
                 } else {
                     Vec::new()
                 },
